@@ -20,9 +20,9 @@ CHECKS = {
 }
 
 CHECKS.update({
-    "C08": ("model_checking", "shm", "TLC model checking of spec/Shm.tla (accounting invariants) + TLC -simulate behaviours replayed into the real shm Manager/Disk with state comparison after every step; invariants re-evaluated by TLC on every observed real state",
+    "C08": ("model_checking", "shm", "TLC model checking of spec/Shm.tla (accounting invariants) + TLC -simulate behaviours replayed into the real shm Manager/Disk with state comparison after every step; invariants re-evaluated by TLC on every observed real state; the accounting invariant is proved inductive for every capacity and size function on the skeleton spec/ShmAcct.tla (Apalache) which spec/Shm.tla refines (TLC)",
             "free_space accounting and the capacity bound hold in every reachable state of the bounded model (all interleavings of requests with both halves of page-out callbacks, failing jobs, stale readers) and on every state observed while the real Manager follows TLC-generated behaviours.",
-            "Bounded: 3 keys (2,2,3; cap 4) and 2 keys deeper; fake segments and clock, real Disk code; CPython GIL atomicity of unlocked int updates; TLC."),
+            "TLC part bounded: 3 keys (2,2,3; cap 4) and 2 keys deeper; Apalache part unbounded in capacity and sizes, 4 keys; fake segments and clock, real Disk code; CPython GIL atomicity of unlocked int updates; TLC."),
     "C09": ("model_checking", "shm", "TLC model checking of spec/Shm.tla (BytesStable, FreshReaderProtected, LockSane, delayed purge, eviction liveness) + behaviour replay into the real Manager with real bytes",
             "Byte stability, reader protection, delayed purge and eviction progress hold in the bounded model and on the real object for every replayed behaviour; bytes are real (segments and page files compared with what the writer wrote).",
             "As C08."),
